@@ -26,6 +26,7 @@ use std::time::Duration;
 
 mod fanout;
 mod keepalive;
+mod replife;
 mod reqlife;
 mod reqrep;
 mod server;
@@ -413,6 +414,7 @@ fn main() {
             Some("fanout") => fanout::cmd_fanout(args.clone()).await,
             Some("shutdown") => shutdown::cmd_shutdown(args.clone()).await,
             Some("reqlife") => reqlife::cmd_reqlife(args.clone()).await,
+            Some("replife") => replife::cmd_replife(args.clone()).await,
             Some("keepalive") => keepalive::cmd_keepalive(args.clone()).await,
             _ => Err(anyhow!("usage: e2e pubsub|reqrep|server|stall|tls|keepalive --out T ...")),
         }
